@@ -118,6 +118,8 @@ class ImageBatch(DataTensor):
                 if isinstance(split_size_or_sections, int):
                     for start in range(0, len(grids), split_size_or_sections):
                         split_grids.append(grids[start : start + split_size_or_sections])
+                    if not split_grids:
+                        split_grids.append(grids)  # empty batch is split into one empty part
                 elif isinstance(split_size_or_sections, Sequence):
                     start = 0
                     for num in split_size_or_sections:
@@ -194,7 +196,7 @@ class ImageBatch(DataTensor):
                 raise AssertionError(f"expected split 'data' to be tuple or list, got {type(data)}")
             if type(grid) not in (tuple, list):
                 raise AssertionError(f"expected split 'grid' to be tuple or list, got {type(grid)}")
-            if grid and isinstance(grid[0], Grid):
+            if not grid or isinstance(grid[0], Grid):
                 # Not split along batch dimension, every part contains data of all images
                 grid = [grid] * len(data)
             if len(grid) != len(data):
